@@ -7,28 +7,32 @@ import Model.Gen.Wb
 import Proofs.Lemmas.WbBasic
 import Proofs.Lemmas.WbTables
 import Proofs.Lemmas.WbKey
+import Proofs.Lemmas.WbStatic
+import Proofs.Lemmas.WbLayout
+import Proofs.Lemmas.WbRound
+import Proofs.Lemmas.WbEnc
 namespace Proofs.C18
 open Model Model.Wb Model.Bits Proofs.Lemmas.Wb
 
 /-! ### the key-independent tables: Model generator = what the real code returns (closed terms, kernel evaluation) -/
 
 /-- `getrbits_T_in()` -/
-theorem rbits_eq_gen : getrbitsTin = .ok Gen.Wb.rbits := ok_of_toOption (by decide +kernel)
+theorem rbits_eq_gen : getrbitsTin = .ok Gen.Wb.rbits := rbits_gen
 
 /-- `table_M1()` -/
-theorem tableM1_eq_gen : tableM1 = .ok Gen.Wb.m1 := ok_of_toOption (by decide +kernel)
+theorem tableM1_eq_gen : tableM1 = .ok Gen.Wb.m1 := tableM1_gen
 
 /-- `SRLRformat()` -/
-theorem srlr_eq_gen : srlrFormat = .ok (Gen.Wb.srlrSR, Gen.Wb.srlrL, Gen.Wb.srlrR) := ok_of_toOption (by decide +kernel)
+theorem srlr_eq_gen : srlrFormat = .ok (Gen.Wb.srlrSR, Gen.Wb.srlrL, Gen.Wb.srlrR) := srlr_gen
 
 /-- `ERLRformat()` -/
-theorem erlr_eq_gen : erlrFormat = .ok (Gen.Wb.erlrER, Gen.Wb.erlrL, Gen.Wb.erlrR) := ok_of_toOption (by decide +kernel)
+theorem erlr_eq_gen : erlrFormat = .ok (Gen.Wb.erlrER, Gen.Wb.erlrL, Gen.Wb.erlrR) := erlr_gen
 
 /-- `table_M2()`: both the matrix rows and the list `m` they are built from -/
-theorem tableM2_eq_gen : tableM2 = .ok (Gen.Wb.m2mat, Gen.Wb.m2m) := ok_of_toOption (by decide +kernel)
+theorem tableM2_eq_gen : tableM2 = .ok (Gen.Wb.m2mat, Gen.Wb.m2m) := tableM2_gen
 
 /-- `table_M3()` -/
-theorem tableM3_eq_gen : tableM3 = .ok Gen.Wb.m3 := ok_of_toOption (by decide +kernel)
+theorem tableM3_eq_gen : tableM3 = .ok Gen.Wb.m3 := tableM3_gen
 
 /-! ### the key-dependent tables, for EVERY key (any `Bits` value, in particular every `Bits(K,64)`) and every round -/
 
@@ -105,6 +109,43 @@ theorem network_total (K : List Nat) :
     simp [mkWhiteDES, hb, h1, tableM1_eq_gen, tableM2_eq_gen, tableM3_eq_gen, bind, Except.bind, pure, Except.pure],
     rfl, rfl, rfl, h2, h3⟩
 
+/-! ### the linear layer and the rounds -/
+
+/-- the key-independent layer, stated on the extracted tables: the input map is the state layout applied after IP, the
+    output map is IPinv of the swapped halves read back from the layout, and every row of the mixing matrix M2 gathers
+    from the post-T-box state exactly the R bit, or the pair (L_j, S_{P(j)}), that the next state needs there
+    (`encIdx`, `postIdx`, `swapIdx`: Proofs/Lemmas/WbLayout.lean; all three are kernel-checked index identities) -/
+theorem layout_identities :
+    Gen.Wb.m1 = encIdx.map (fun x => Gen.Des.ip.getD x 0) ∧
+    (Gen.Wb.m3.map fun x => encIdx.getD x 0) = Gen.Des.ipinv.map (fun x => swapIdx.getD x 0) ∧
+    ∀ b < 96, Gen.Wb.m2mat.getD b 0 = rowMask (Gen.Wb.m2m.getD b []) ∧
+      (encIdx.getD b 0 < 32 → (Gen.Wb.m2m.getD b []).map postIdx = [64 + encIdx.getD b 0]) ∧
+      (32 ≤ encIdx.getD b 0 → (Gen.Wb.m2m.getD b []).map postIdx = [Gen.Des.p.getD (encIdx.getD b 0 - 32) 0, encIdx.getD b 0]) := by
+  refine ⟨m1_eq, m3_eq, ?_⟩
+  intro b hb
+  obtain ⟨t1, t2, t3⟩ := round_table b hb
+  refine ⟨t1, ?_, ?_⟩
+  · intro c; obtain ⟨u1, _, u3⟩ := t2 c; rw [u1]; simp only [List.map_cons, List.map_nil, u3]
+  · intro c; obtain ⟨u1, _, _, _, u5, u6⟩ := t3 c; rw [u1]; simp only [List.map_cons, List.map_nil, u5, u6]
+
+/-- ONE ROUND, for every key, every round index and every pair of halves: the twelve T-box substitutions followed by
+    `__FX` map the encoding of (L, R) to the encoding of (R, L xor F(R, k_r)), `F` and the key schedule being those of
+    Model.Des (`enc L R` = `(L // R)[encIdx]`, the 96-bit state layout) -/
+theorem round_refines (K : Bits) (r : Nat) (hr : r < 16) (L R : Bits)
+    (hL : L.size = 32) (hLw : L.WF) (hR : R.size = 32) (hRw : R.WF) :
+    ∃ rks rkt fout, tableRKT r K = .ok (rks, rkt) ∧ Des.F R (Des.PC1 K) r = .ok fout ∧
+      (tboxLoop rkt (List.range 12) (enc L R) >>= (WhiteDES.mk [] [] Gen.Wb.m2mat []).FX) = .ok (enc R (L.xor fout)) := by
+  obtain ⟨_, rks, rkt, _, _, h3, _⟩ := tableRKT_ok K r hr
+  obtain ⟨fout, f1, _, _, f4⟩ := round_ok K r hr L R hL hLw hR hRw rks rkt h3 ⟨[], [], Gen.Wb.m2mat, []⟩ rfl
+  exact ⟨rks, rkt, fout, h3, f1, f4⟩
+
+/-- END TO END (model of the white-box = model of the cipher): for EVERY 8-byte key string K and EVERY message M,
+    building the table network for K (`Bits(K,64)`, sixteen `table_rKT`, `table_M1/M2/M3`) and running `WhiteDES.enc`
+    returns exactly what `DES(K).enc(M)` returns — the same ciphertext for an 8-byte block, the same AssertionError for
+    any other length.  (`DES(K)` asserts `len(K)==8`; the white-box generator does not, hence the hypothesis.) -/
+theorem wb_enc_eq_des (K M : List Nat) (hK : K.length = 8) : wbEnc K M = Des.enc K M :=
+  wbEnc_eq_desEnc K M hK
+
 /-! ### non-vacuity: the statements above talk about tables that exist and are not trivial -/
 
 /-- the hypotheses of the ∀-key theorems are just index ranges; instantiated at the key of tests/test_des.py -/
@@ -117,5 +158,17 @@ example : ((do let fk ← Des.subkey (Des.PC1 ⟨0xf7b3d591e6a2c480, 64⟩) 0
                let a ← sboxOut 0 ((ofNatSz 0 6).xor (fk.sliceFast 0 6))
                let b ← sboxOut 0 ((ofNatSz 1 6).xor (fk.sliceFast 0 6))
                pure (a, b)).toOption) = some (2, 8) := by decide +kernel
+
+/-- the halves hypotheses of `round_refines` are inhabited by non-trivial values -/
+example : ∃ L R : Bits, L.size = 32 ∧ L.WF ∧ R.size = 32 ∧ R.WF ∧ L.ival ≠ 0 ∧ R.ival ≠ L.ival :=
+  ⟨⟨0x89abcdef, 32⟩, ⟨0x01234567, 32⟩, rfl, by decide, rfl, by decide, by decide, by decide⟩
+
+/-- `wb_enc_eq_des` at the key of tests/test_des.py -/
+example (M : List Nat) : wbEnc [0x01, 0x23, 0x45, 0x67, 0x89, 0xab, 0xcd, 0xef] M = Des.enc [0x01, 0x23, 0x45, 0x67, 0x89, 0xab, 0xcd, 0xef] M :=
+  wb_enc_eq_des _ M rfl
+
+/-- and the common value is a ciphertext, not an error, on an 8-byte block ("Now is t" under that key: 3fa40e8a984d4815) -/
+example : Des.enc [0x01, 0x23, 0x45, 0x67, 0x89, 0xab, 0xcd, 0xef] [78, 111, 119, 32, 105, 115, 32, 116]
+    = .ok [0x3f, 0xa4, 0x0e, 0x8a, 0x98, 0x4d, 0x48, 0x15] := ok_of_toOption (by decide +kernel)
 
 end Proofs.C18
